@@ -324,7 +324,11 @@ static ares_status_t ares_hosts_file_add(ares_hosts_file_t  *hosts,
 
     if (!ares_htable_strvp_get(hosts->iphash, ipaddr, NULL)) {
       if (!ares_htable_strvp_insert(hosts->iphash, ipaddr, entry)) {
-        ares_hosts_entry_destroy(entry);
+        /* After a merge, entry is the existing one which is owned (and
+         * reference counted) by the ip address table, not by us */
+        if (matchtype == ARES_MATCH_NONE) {
+          ares_hosts_entry_destroy(entry);
+        }
         return ARES_ENOMEM;
       }
       entry->refcnt++;
